@@ -776,21 +776,23 @@ def numeric_def(name, pulses, new, om, Bnew, Bpc, Fpc, q, big, gen=None):
            + (f"  (tadd (tallyC O {emit.tol_lit(REL_TOL * sB, big)} {carr_lit(Bpc.reshape(-1))}%Z (List.concat (map (@flat3 _) Bpc)))\n"
               f"  (tadd (tallyC O {emit.tol_lit(REL_TOL * sF, big)} {carr_lit(Fpc.reshape(-1))}%Z (flat5 Fpc))\n"
               if Bpc is not None else "  (tadd (0,0,0)%N (tadd (0,0,0)%N\n") +
-           f"        (tallyC O {emit.tol_lit(1e-10, big)} {carr_lit(new.total_propagator.reshape(-1))}%Z (flat_mats [Ptot]))))))).\n")
+           (f"  (tadd (tallyC O {emit.tol_lit(REL_TOL * max(np.abs(gen).max(), 1e-300), big)} {carr_lit(gen.reshape(-1))}%Z "
+            f"(flat7 (pc_filter_function_gen O {na} {nk} {no} Bpc)))\n" if gen is not None else "  (tadd (0,0,0)%N\n") +
+           f"        (tallyC O {emit.tol_lit(1e-10, big)} {carr_lit(new.total_propagator.reshape(-1))}%Z (flat_mats [Ptot])))))))).\n")
     return txt
 
 
-def numeric_case(specs):
+def numeric_case(specs, which='fidelity'):
     """run the implementation on one numeric case; returns dict or raises"""
     pulses = [spec_pulse(s) for s in specs]
-    nfreq = 3
+    nfreq = 3 if which == 'fidelity' else 2
     om = np.array([0.0, 0.83, -1.7])[:nfreq]
     qs = [copy.deepcopy(p) for p in pulses]
-    new = ff.concatenate(qs, calc_pulse_correlation_FF=True, omega=om)
+    new = ff.concatenate(qs, calc_pulse_correlation_FF=True, omega=om, which=which)
     return pulses, qs, new, om
 
 
-def numeric_predicates(pulses, new, om):
+def numeric_predicates(pulses, new, om, which='fidelity'):
     bad = []
     res = run_wff(pulses)
     if res[0] == 'ok':
@@ -804,7 +806,7 @@ def numeric_predicates(pulses, new, om):
         bad.append(('pc-missing', 'calc_pulse_correlation_FF=True returned without pulse correlation quantities'))
         bad += scratch_predicates(new, om)
         return bad
-    bad += scratch_predicates(new, om, check_pc=True)
+    bad += scratch_predicates(new, om, which=which, check_pc=True)
     # regroupings / @ / slicing
     n = len(pulses)
     q = fresh_of(new)
@@ -846,19 +848,21 @@ def numeric_predicates(pulses, new, om):
 
 def run_numeric(ctx, out):
     r = ctx.rng(13)
-    n = 60 if ctx.thorough else 10
+    n = 100 if ctx.thorough else 10
     cases = []
     for i in range(n):
         specs, tags = numeric_specs(r, ctx.thorough)
+        which = 'generalized' if (i % 3 == 2 and tags['d'] == 2 and tags['n'] <= 3) else 'fidelity'
+        tags['which'] = which
         inp = dict(kind='numeric', tags=tags, specs=[spec_json(s) for s in specs])
         out['evaluations'] += 1
-        cls = 'num/d%d/n%d/%s/%s' % (tags['d'], tags['n'], tags['share'], tags['basis'])
+        cls = 'num/d%d/n%d/%s/%s/%s' % (tags['d'], tags['n'], tags['share'], tags['basis'], which[:3])
         out['classes'][cls] = out['classes'].get(cls, 0) + 1
         try:
             with warnings.catch_warnings():
                 warnings.simplefilter('ignore')
-                pulses, qs, new, om = numeric_case(specs)
-                bad = numeric_predicates(pulses, new, om)
+                pulses, qs, new, om = numeric_case(specs, which)
+                bad = numeric_predicates(pulses, new, om, which)
         except Exception as e:      # noqa
             out['failures'].append(dict(kind='prop', observable='raises-' + type(e).__name__, signature='c03-raises-' + type(e).__name__,
                                         detail='concatenate raised %r on compatible inputs' % e, input=inp))
@@ -867,18 +871,19 @@ def run_numeric(ctx, out):
             sig = refine_signature(obs, pulses, ['none'] * len(pulses), (None, 0, 'fidelity', True))
             out['failures'].append(dict(kind='prop', observable=obs, signature=sig, detail=det, input=inp))
         if new.is_cached('control_matrix') or new.is_cached('control_matrix_pc'):
-            cases.append((pulses, new, om, inp))
+            cases.append((pulses, new, om, inp, which))
             if len(out['samples']) < 6:
                 out['samples'].append(dict(tags=tags, max_abs_B=float(np.abs(new.get_control_matrix(om)).max())))
 
     def mk(i, big):
-        pulses, new, om, _ = cases[i]
+        pulses, new, om, _, which = cases[i]
         q = fresh_of(new)
         q.diagonalize()
         haspc = new.is_cached('control_matrix_pc')
         Bpc = new.get_pulse_correlation_control_matrix() if haspc else None
+        gen = new.get_pulse_correlation_filter_function('generalized') if (haspc and which == 'generalized') else None
         return ('n%d' % i, numeric_def('n%d' % i, pulses, new, om, new.get_control_matrix(om), Bpc,
-                                       new.get_pulse_correlation_filter_function() if haspc else None, q, big))
+                                       new.get_pulse_correlation_filter_function() if haspc else None, q, big, gen))
     for p, *_ in cases:
         for x in p:
             x.diagonalize()
@@ -905,33 +910,6 @@ def run_numeric(ctx, out):
 
 
 # ------------------------------------------------------------------------------------------- entry points
-MODELLED = ['pulse_sequence__concatenate_Hamiltonian', 'pulse_sequence_concatenate_without_filter_function',
-            'pulse_sequence_concatenate', 'pulse_sequence_PulseSequence___matmul__', 'pulse_sequence_PulseSequence___getitem__',
-            'pulse_sequence_PulseSequence_cache_filter_function', 'pulse_sequence_PulseSequence_cache_control_matrix',
-            'pulse_sequence_PulseSequence_get_total_phases', 'pulse_sequence_PulseSequence_cache_total_phases',
-            'pulse_sequence_PulseSequence_get_pulse_correlation_filter_function',
-            'pulse_sequence_PulseSequence_get_pulse_correlation_control_matrix',
-            'numeric_calculate_control_matrix_from_atomic', 'numeric_calculate_pulse_correlation_filter_function',
-            'numeric_calculate_control_matrix_from_scratch', 'superoperator_liouville_representation', 'util_mdot',
-            'util_cexp', 'util_hash_array_along_axis', 'util_all_array_equal']
-
-
-def changed_sources():
-    """modelled functions whose regenerated hash (Extracted/Src.v) differs from the pinned one (Model/Expected.v)"""
-    import os
-    import re
-    from ..common import COQ
-
-    def hashes(path):
-        try:
-            txt = open(os.path.join(COQ, path)).read()
-        except OSError:
-            return {}
-        return dict(re.findall(r'Definition h_(\w+) : string := "([0-9a-f]+)"', txt))
-    src, exp = hashes('Extracted/Src.v'), hashes('Model/Expected.v')
-    return [f for f in MODELLED if src.get(f) != exp.get(f)]
-
-
 def run(ctx):
     out = dict(evaluations=0, failures=[], samples=[], classes={}, corr={})
     with warnings.catch_warnings():
@@ -939,21 +917,6 @@ def run(ctx):
         run_bookkeeping(ctx, out)
         run_decisions(ctx, out)
         run_numeric(ctx, out)
-    changed = changed_sources()
-    if changed:
-        # The source of a modelled function differs from the one the model was written for.  tools/check.py only
-        # reports a broken tie when the plugin has no failure at all, known findings included; C03 always has known
-        # findings, so the broken tie is reported here (with a failing input if the deeper search finds one).
-        from ..common import known_findings
-        ksig = {e['signature'] for e in known_findings(ID)}
-        if not any(f['signature'] not in ksig for f in out['failures']):
-            found = search(ctx, ['source of %s changed (Model/Tie/C03.v)' % ', '.join(changed)])
-            if found:
-                out['failures'] += found
-            else:
-                out['failures'].append(dict(kind='obligation', signature='c03-source-changed',
-                                            observable='Model/Tie/C03.v: source of %s differs from the modelled one' % ', '.join(changed),
-                                            detail='no failing input found by the search', input=None, nofail=True))
     out['distinct_nontrivial'] = len(out['classes'])
     out['rule'] = ('bookkeeping: identifier/operator patterns (named witnesses, all single-operator assignments of 3 '
                    'identifiers to 3 operators over 2 and 3 pulses (sampled in quick), random 1..4-pulse mixtures, rejections); '
@@ -983,8 +946,9 @@ def replay(ctx, rep):
             bad = decision_predicates(pulses, inp['states'], opt, info)
         else:
             try:
-                pulses, qs, new, om = numeric_case(specs)
-                bad = numeric_predicates(pulses, new, om)
+                wh = inp.get('tags', {}).get('which', 'fidelity')
+                pulses, qs, new, om = numeric_case(specs, wh)
+                bad = numeric_predicates(pulses, new, om, wh)
             except Exception as e:      # noqa
                 bad = [('raises-' + type(e).__name__, repr(e))]
     if bad:
